@@ -80,11 +80,29 @@ Proof.
   apply ex_retry; [apply ex_pollsN|apply ex_pollsN|apply pollsN_guard_or_nofail].
 Qed.
 
+Lemma ex_pass : forall d, ex 1 1 (pass d).
+Proof.
+  intro d. unfold pass, scan.
+  apply (ex_weaken (N.max 1 1) (N.max 1 (N.max 1 1))); [|lia|lia].
+  apply ex_seq; [exact ex_poll|apply ex_pollsN].
+Qed.
+
 Lemma ex_buffer : forall o, ex 1 1 (buffer_polls o).
 Proof.
   intro o. unfold buffer_polls.
   apply (ex_weaken (N.max 1 1) (N.max 1 (N.max 1 1))); [|lia|lia].
-  apply ex_seq; [exact ex_poll|apply ex_pollsN].
+  apply ex_seq; [apply ex_pass|].
+  apply ex_seqs; [lia|]. intros p Hp. apply in_map_iff in Hp.
+  destruct Hp as [d [Hd _]]. subst p. apply ex_pass.
+Qed.
+
+(* the scan loop of DetectKeywordsWithContext: at most ONE of its polls sees the cancelled context,
+   however many iterations (string literals, comments) the object needs *)
+Lemma scan_late_le_1 : forall poll iters s o s', mono poll ->
+  run poll (scan iters) s = (o, s') -> late s' <= late s + 1.
+Proof.
+  intros poll iters s o s' Hm H. pose proof (late_bound_lbc poll _ s o s' Hm H) as Hb.
+  destruct (ex_pollsN iters) as [_ Hc Hl _]. unfold scan, lbc in *. lia.
 Qed.
 
 Lemma ex_parse_obj : forall o, ex 2 2 (parse_obj o).
@@ -305,11 +323,18 @@ Lemma ff_retry3 : forall p q r, failfree p = true -> failfree r = true ->
   failfree (Retry p q r) = true.
 Proof. intros p q r Hp Hr. simpl. rewrite Hp, Hr. reflexivity. Qed.
 
+Lemma failfree_buffer : forall o, failfree (buffer_polls o) = true.
+Proof.
+  intro o. unfold buffer_polls, pass, scan. apply ff_seq.
+  - apply ff_seq; [reflexivity|apply failfree_pollsN].
+  - apply failfree_seqs. intros p Hp. apply in_map_iff in Hp. destruct Hp as [d [Hd _]]. subst p.
+    apply ff_seq; [reflexivity|apply failfree_pollsN].
+Qed.
 Lemma failfree_pal : forall o, failfree (parse_and_load o) = true.
 Proof.
-  intro o. unfold parse_and_load, parse_obj, buffer_polls.
+  intro o. unfold parse_and_load, parse_obj.
   apply ff_seq; [|apply failfree_pollsN]. apply ff_seq.
-  - apply ff_seq; [reflexivity|apply failfree_pollsN].
+  - apply failfree_buffer.
   - apply ff_retry; apply failfree_pollsN.
 Qed.
 Lemma failfree_process_object : forall rx o, failfree (process_object rx o) = true.
@@ -345,8 +370,8 @@ Proof.
   - apply failfree_seqs. intros p Hp. apply in_map_iff in Hp. destruct Hp as [e [He _]]. subst p.
     destruct e as [| |o]; try reflexivity. unfold entry_prog.
     assert (Hpo : failfree (parse_obj o) = true).
-    { unfold parse_obj, buffer_polls. apply ff_seq.
-      - apply ff_seq; [reflexivity|apply failfree_pollsN].
+    { unfold parse_obj. apply ff_seq.
+      - apply failfree_buffer.
       - apply ff_retry; apply failfree_pollsN. }
     apply ff_seq; [reflexivity|]. destruct (s_relaxed s).
     + apply ff_try; [exact Hpo| |apply failfree_pollsN].
